@@ -54,8 +54,8 @@ func validKeyVerifyRule(P *Program, R *Report) {
 	}
 	acc := AcceptTrue(0)
 	gp := vkp + ".GroupPrime"
-	mp(P, R, rule, kVKVerify+":GroupPrime-present", "accept => GroupPrime != nil", fn, acc, &MustPass{NoInterproc: true, Match: func(a Atom) bool { return desc(a.V) == gp && a.Want == NonNil }})
-	mp(P, R, rule, kVKVerify+":GroupPrime-size", "accept => GroupPrime.BitLen() >= |n| + 2*rangeProofEpsilon + 10", fn, acc, &MustPass{NoInterproc: true, Match: func(a Atom) bool {
+	mp(P, R, rule, kVKVerify+":GroupPrime-present", "accept => GroupPrime != nil", fn, acc, &MustPass{Match: func(a Atom) bool { return desc(a.V) == gp && a.Want == NonNil }})
+	mp(P, R, rule, kVKVerify+":GroupPrime-size", "accept => GroupPrime.BitLen() >= |n| + 2*rangeProofEpsilon + 10", fn, acc, &MustPass{Match: func(a Atom) bool {
 		g, ok := parseGuard(a, nil)
 		if !ok || g.Kind != "bitlen" || g.Subject != gp || g.Rel != ">=" {
 			return false
@@ -70,7 +70,7 @@ func validKeyVerifyRule(P *Program, R *Report) {
 		if half {
 			name, what = "GroupPrime-half-prime", "accept => (GroupPrime >> 1).ProbablyPrime(k >= 20)"
 		}
-		mp(P, R, rule, kVKVerify+":"+name, what, fn, acc, &MustPass{NoInterproc: true, Match: func(a Atom) bool {
+		mp(P, R, rule, kVKVerify+":"+name, what, fn, acc, &MustPass{Match: func(a Atom) bool {
 			c, _ := callAndResult(a.V)
 			if c == nil || bigMethod(c) != "ProbablyPrime" || a.Want != True {
 				return false
@@ -79,7 +79,7 @@ func validKeyVerifyRule(P *Program, R *Report) {
 			if !ok || k < 20 {
 				return false
 			}
-			ts := be.At[c]
+			ts := be.at(c)
 			if len(ts) < 1 {
 				return false
 			}
@@ -101,10 +101,10 @@ func validKeyVerifyRule(P *Program, R *Report) {
 		fd := vkp + "." + f
 		n++
 		if isBigIntPtr(st.Field(i).Type()) {
-			mp(P, R, rule, kVKVerify+":field:"+f, "accept => "+f+" != nil", fn, acc, &MustPass{NoInterproc: true, Match: func(a Atom) bool { return desc(a.V) == fd && a.Want == NonNil }})
+			mp(P, R, rule, kVKVerify+":field:"+f, "accept => "+f+" != nil", fn, acc, &MustPass{Match: func(a Atom) bool { return desc(a.V) == fd && a.Want == NonNil }})
 			continue
 		}
-		mp(P, R, rule, kVKVerify+":field:"+f, "accept => a structure check of "+f+" succeeded", fn, acc, &MustPass{NoInterproc: true, Match: func(a Atom) bool {
+		mp(P, R, rule, kVKVerify+":field:"+f, "accept => a structure check of "+f+" succeeded", fn, acc, &MustPass{Match: func(a Atom) bool {
 			c, _ := callAndResult(a.V)
 			if c == nil || a.Want != True {
 				return false
@@ -128,7 +128,7 @@ func validKeyVerifyRule(P *Program, R *Report) {
 			hc = c.(*ssa.Call)
 		}
 	}
-	mp(P, R, rule, kVKVerify+":challenge", "accept => Challenge compared equal to HashCommit(rebuilt list, false)", fn, acc, &MustPass{NoInterproc: true, Match: func(a Atom) bool {
+	mp(P, R, rule, kVKVerify+":challenge", "accept => Challenge compared equal to HashCommit(rebuilt list, false)", fn, acc, &MustPass{Match: func(a Atom) bool {
 		x, y, ok := parseEq(a)
 		if !ok || hc == nil {
 			return false
@@ -138,11 +138,11 @@ func validKeyVerifyRule(P *Program, R *Report) {
 	if hc != nil {
 		R.decide(rule, kVKVerify+":issig", "the key proof is hashed without the signature-session marker", desc(hc.Call.Args[1]) == "false", "", P.Pos(hc.Pos()))
 	}
-	mp(P, R, rule, kVKVerify+":QSPP", "accept => quasiSafePrimeProductVerifyProof(s.n, Challenge, QSPPproof) true", fn, acc, &MustPass{NoInterproc: true, Match: func(a Atom) bool {
+	mp(P, R, rule, kVKVerify+":QSPP", "accept => quasiSafePrimeProductVerifyProof(s.n, Challenge, QSPPproof) true", fn, acc, &MustPass{Match: func(a Atom) bool {
 		c, ok := callAtom(a, True, kQSPPVer)
 		return ok && desc(c.Call.Args[0]) == vks+".n" && desc(c.Call.Args[1]) == vkp+".Challenge" && desc(c.Call.Args[2]) == vkp+".QSPPproof"
 	}})
-	mp(P, R, rule, kVKVerify+":group", "accept => BuildGroup(GroupPrime) succeeded", fn, acc, &MustPass{NoInterproc: true, Match: func(a Atom) bool {
+	mp(P, R, rule, kVKVerify+":group", "accept => BuildGroup(GroupPrime) succeeded", fn, acc, &MustPass{Match: func(a Atom) bool {
 		c, idx := callAndResult(a.V)
 		return c != nil && calleeName(c) == "zkproof.BuildGroup" && idx == 1 && a.Want == True && desc(c.Call.Args[0]) == gp
 	}})
@@ -293,7 +293,7 @@ func quasiSafePrimeRule(P *Program, R *Report) {
 	}
 	acc := AcceptTrue(0)
 	be := P.bigEval(fn)
-	mp(P, R, rule, kQSPPVer+":N-mod-8", "accept => N mod 8 == 5", fn, acc, &MustPass{NoInterproc: true, Match: func(a Atom) bool {
+	mp(P, R, rule, kQSPPVer+":N-mod-8", "accept => N mod 8 == 5", fn, acc, &MustPass{Match: func(a Atom) bool {
 		_, _, ok := parseEq(a)
 		if !ok {
 			return false
@@ -306,7 +306,7 @@ func quasiSafePrimeRule(P *Program, R *Report) {
 		if !isC {
 			return false
 		}
-		ts := be.At[c]
+		ts := be.at(c)
 		return len(ts) == 2 && ((ts[0].equal(termFn("Mod", tsym("arg#0"), tconst(8))) && ts[1].equal(tconst(5))) || (ts[1].equal(termFn("Mod", tsym("arg#0"), tconst(8))) && ts[0].equal(tconst(5))))
 	}})
 	// trial division loop: 2 <= i < minimumFactor (1024), gcd(N, i) == 1
@@ -345,7 +345,7 @@ func quasiSafePrimeRule(P *Program, R *Report) {
 	}
 	okGcd := false
 	for _, l := range loops {
-		q := &MustPass{P: P, NoInterproc: true, Match: func(a Atom) bool {
+		q := &MustPass{P: P, Match: func(a Atom) bool {
 			x, y, ok := parseEq(a)
 			if !ok {
 				return false
@@ -375,7 +375,7 @@ func quasiSafePrimeRule(P *Program, R *Report) {
 		cn := cn
 		vname := "keyproof." + cn + "VerifyProof"
 		var idx int64 = -1
-		mp(P, R, rule, kQSPPVer+":component:"+cn, "accept => "+cn+"VerifyProof(N, challenge, index, its proof) true", fn, acc, &MustPass{NoInterproc: true, Match: func(a Atom) bool {
+		mp(P, R, rule, kQSPPVer+":component:"+cn, "accept => "+cn+"VerifyProof(N, challenge, index, its proof) true", fn, acc, &MustPass{Match: func(a Atom) bool {
 			c, ok := callAtom(a, True, vname)
 			if !ok || desc(c.Call.Args[0]) != "arg#0" || desc(c.Call.Args[1]) != "arg#1" {
 				return false
@@ -483,7 +483,7 @@ func orCompositionRule(P *Program, R *Report) {
 		}
 		be := P.bigEval(fn)
 		x0, x1 := k.typ+"."+chal[0], k.typ+"."+chal[1]
-		mp(P, R, rule, k.fn+":xor", "accept => challenge == "+chal[0]+" XOR "+chal[1], fn, AcceptTrue(0), &MustPass{NoInterproc: true, Match: func(a Atom) bool {
+		mp(P, R, rule, k.fn+":xor", "accept => challenge == "+chal[0]+" XOR "+chal[1], fn, AcceptTrue(0), &MustPass{Match: func(a Atom) bool {
 			_, _, ok := parseEq(a)
 			if !ok {
 				return false
@@ -513,7 +513,7 @@ func orCompositionRule(P *Program, R *Report) {
 		}})
 		for _, c := range chal {
 			c := c
-			mp(P, R, rule, k.fn+":"+c+"-present", "accept => "+c+" != nil", fn, AcceptTrue(0), &MustPass{NoInterproc: true, Match: func(a Atom) bool { return desc(a.V) == k.typ+"."+c && a.Want == NonNil }})
+			mp(P, R, rule, k.fn+":"+c+"-present", "accept => "+c+" != nil", fn, AcceptTrue(0), &MustPass{Match: func(a Atom) bool { return desc(a.V) == k.typ+"."+c && a.Want == NonNil }})
 		}
 		// commitmentsFromProof uses the split challenges for the sub-proofs
 		cf := mustFunc(P, R, rule, strings.Replace(k.fn, "verifyProofStructure", "commitmentsFromProof", 1))
@@ -552,7 +552,7 @@ func keyRangeProofRule(P *Program, R *Report) {
 	name := rs + ".RepresentationProofStructure.Rhs[#i].Secret"
 	fa := func(m func(a Atom) bool) forAllMemo {
 		f := &ForAll{P: P, Spec: ForAllSpec{Coll: is(rs + ".RepresentationProofStructure.Rhs"), Body: func(_ *ssa.Function, l *Loop) *MustPass {
-			return &MustPass{NoInterproc: true, Match: m}
+			return &MustPass{Match: m}
 		}}}
 		return f.inFn(fn, acc)
 	}
@@ -567,14 +567,14 @@ func keyRangeProofRule(P *Program, R *Report) {
 	inner := loopOver(fn, is(rp+".Results["+name+"]"))
 	okNil := false
 	if inner != nil {
-		q := &MustPass{P: P, NoInterproc: true, Match: func(a Atom) bool { return desc(a.V) == rp+".Results["+name+"][#j]" && a.Want == NonNil }}
+		q := &MustPass{P: P, Match: func(a Atom) bool { return desc(a.V) == rp+".Results["+name+"][#j]" && a.Want == NonNil }}
 		okNil = q.ForAllBody(fn, inner, acc, false).Holds
 	}
 	R.decide(rule, vs+":entries-non-nil", "accept => every entry of every list is non-nil", okNil, "", P.Pos(fn.Pos()))
 	// range-secret size
 	be := P.bigEval(fn)
 	sz := &ForAll{P: P, Spec: ForAllSpec{Coll: is(rp + ".Results[" + rs + ".rangeSecret]"), Body: func(_ *ssa.Function, l *Loop) *MustPass {
-		return &MustPass{NoInterproc: true, Match: func(a Atom) bool {
+		return &MustPass{Match: func(a Atom) bool {
 			g, ok := parseGuard(a, be)
 			if !ok || g.Kind != "big" || g.Subject != rp+".Results["+rs+".rangeSecret][#i]" {
 				return false
@@ -735,7 +735,7 @@ func keyproofSafetyRule(P *Program, R *Report) {
 				}
 			})
 			for _, e := range sortedKeys(cands) {
-				q := &MustPass{P: P, NoInterproc: true, Match: func(a Atom) bool {
+				q := &MustPass{P: P, Match: func(a Atom) bool {
 					g, ok := parseGuard(a, nil)
 					return ok && g.Kind == "int" && g.Rel == "==" && g.Subject == "len("+fd+")" && g.BoundA.String() == e
 				}}
@@ -754,7 +754,7 @@ func keyproofSafetyRule(P *Program, R *Report) {
 			case *types.Pointer, *types.Map:
 				nNullable++
 				ok, d := some(func(fn *ssa.Function, acc Accept) (bool, string) {
-					q := &MustPass{P: P, NoInterproc: true, Match: func(a Atom) bool { return desc(a.V) == fd && a.Want == NonNil }}
+					q := &MustPass{P: P, Match: func(a Atom) bool { return desc(a.V) == fd && a.Want == NonNil }}
 					r := q.Check(fn, acc)
 					return r.Holds && r.NAcc > 0, r.Path
 				})
@@ -765,7 +765,7 @@ func keyproofSafetyRule(P *Program, R *Report) {
 				}
 				nSub++
 				ok, d := some(func(fn *ssa.Function, acc Accept) (bool, string) {
-					q := &MustPass{P: P, NoInterproc: true, Match: func(a Atom) bool { return isStructureCallOn(a, fd) }}
+					q := &MustPass{P: P, Match: func(a Atom) bool { return isStructureCallOn(a, fd) }}
 					r := q.Check(fn, acc)
 					return r.Holds && r.NAcc > 0, r.Path
 				})
@@ -791,7 +791,7 @@ func keyproofSafetyRule(P *Program, R *Report) {
 						}
 					}
 					fa := &ForAll{P: P, Spec: ForAllSpec{Coll: func(d string) bool { return same[d] || "len("+d+")" == ex }, Body: func(_ *ssa.Function, l *Loop) *MustPass {
-						return &MustPass{NoInterproc: true, Match: func(a Atom) bool {
+						return &MustPass{Match: func(a Atom) bool {
 							if isBigIntPtr(u.Elem()) {
 								d := desc(a.V)
 								return (d == fd+"[#i]" || d == fd+"[*]") && a.Want == NonNil
@@ -854,7 +854,7 @@ func useAfterCheckRule(P *Program, R *Report, rule string) {
 				continue
 			}
 			n++
-			q := &MustPass{P: P, NoInterproc: true, Match: match}
+			q := &MustPass{P: P, Match: match}
 			q.init()
 			r := q.search(fn, AcceptAny(), 0, searchOpts{startAt: []*mpState{{b: call.Block(), note: "use at " + P.Pos(call.Pos())}}, startInstr: call})
 			if !r.Holds {
